@@ -81,6 +81,24 @@ static size_t h_tsize (MIR_type_t t) { /* documented sizes of the MIR types on x
   }
 }
 
+/* removal phase: the item objects and their kind-specific parts are static objects of this harness (in the library they
+   are blocks of their own); frees of those are counted, every other free goes to the ledger allocator, which flags a
+   pointer that is not a live block (e.g. an address INSIDE a section block, or a section freed twice) */
+#if H_CBMC
+#define H_IN_OBJ(p, arr) __CPROVER_same_object ((p), (arr))
+#else
+#define H_IN_OBJ(p, arr) ((uintptr_t) (p) >= (uintptr_t) (arr) && (uintptr_t) (p) < (uintptr_t) (arr) + sizeof (arr))
+#endif
+static int h_rm_static_frees;
+static void h_rm_free (void *p, void *ud) {
+  if (p == NULL) return;
+  if (H_IN_OBJ (p, h_items) || H_IN_OBJ (p, h_bss) || H_IN_OBJ (p, h_data) || H_IN_OBJ (p, h_ref) || H_IN_OBJ (p, h_lref) || H_IN_OBJ (p, h_expr)) {
+    h_rm_static_frees++;
+    return;
+  }
+  h_slot_free (p, ud);
+}
+
 void harness (void) {
   MIR_context_t ctx = &h_mini_ctx_obj;
 #ifdef H_CFG /* structural configuration enumerated by the driver (kind, length or type index, element count, named, ref target
@@ -219,6 +237,14 @@ void harness (void) {
     else if (kind[k] == K_BSS) { for (size_t b = 0; b < 9; b++) if (b < size[k]) H_ASSERT (a[b] == 0, "bss still zero after link"); }
   }
   H_EXPECT_NO_ERROR_HERE ();
+  /* ---- removal (what MIR_finish does per module): the real remove_module / remove_item; every section block is returned
+     exactly once and nothing that is not a block is handed to free ---- */
+  H_ASSERT (h_alloc_errors == 0 && h_ledger_live () >= 1, "before removal: at least one section block is live, no allocator misuse so far");
+  h_alloc.free = h_rm_free;
+  remove_module (ctx, &h_mod, FALSE);
+  H_ASSERT (h_alloc_errors == 0, "removal frees only pointers that are live blocks (no address inside a section, no double free)");
+  H_ASSERT (h_ledger_live () == 0, "removal returns every section block");
+  H_ASSERT (h_rm_static_frees == 2 * n, "removal releases every item and its kind-specific part exactly once");
   #if H_NITEMS > 1 && !defined(H_CFG)
   if (n == H_NITEMS && !named[1] && kind[0] != kind[1]) H_WITNESS ("mixed-kind section");
 #endif
